@@ -2453,7 +2453,11 @@ class FuncListDir(ValueFunc):
                 if include_path:
                     path = os.path.join(dirname, path)
                 result.addItem(ValueString(path))
-            if recursive and isdir:
+            if (
+                recursive
+                and isdir
+                and not os.path.islink(os.path.join(dirname, file))
+            ):
                 self.collectFiles(
                     os.path.join(dirname, file),
                     recursive,
